@@ -56,3 +56,10 @@ Q("retry-deque-ctor", "main.py", "                X = Deque([X[-1]])\n          
 Q("lscap-name", "main.py", "        steplength = line_search(\n", "        _cap = min(maxls, maxfun - sf.nfev)\n        steplength = line_search(\n", ["LSCAP"],
   also=[("main.py", "            min(maxls, maxfun - sf.nfev),\n", "            _cap,\n")])
 Q("nitb-flipped-guard", "main.py", "        and istate.nit < maxiter\n", "        and maxiter > istate.nit\n", ["NITB", "EXIT"])
+
+M("accept-last-trial-when-budget-out", "main.py", "            x = np.clip(x + steplength * d, lb, ub)\n",
+  "            if sf.nfev >= maxfun:\n                x = np.copy(sf.x)\n            else:\n                x = np.clip(x + steplength * d, lb, ub)\n",
+  ["ACCEPT", "BOX"], canary=True, note="seeded change C03-b: the wrapper's last trial becomes the iterate")
+M("accept-step-rescaled", "main.py", "            x = np.clip(x + steplength * d, lb, ub)\n", "            steplength = min(steplength, 1.0) * 1.0\n            x = np.clip(x + steplength * d, lb, ub)\n", ["ACCEPT"])
+M("accept-other-direction", "main.py", "            x = np.clip(x + steplength * d, lb, ub)\n", "            x = np.clip(x + steplength * (x_cp - x), lb, ub)\n", ["ACCEPT"])
+Q("accept-inplace", "main.py", "            x = np.clip(x + steplength * d, lb, ub)\n", "            x = x + steplength * d\n            np.clip(x, lb, ub, out=x)\n", ["ACCEPT"])
